@@ -110,6 +110,11 @@ try:
 except ImportError:
     pass
 try:
+    import ui_unit
+    register_runner("ui", ui_unit.run_ui_for)
+except ImportError:
+    pass
+try:
     import native_unit
     register_runner("native", native_unit.run_native_for)
 except ImportError:
